@@ -146,6 +146,9 @@ def gen_slice(rng, kind, n):
         a = rng.randrange(n)
         hi = n - 1 if a + 1 <= n - 1 else n
         return S(a, rng.randint(a + 1, hi))
+    if kind == "unit":
+        a = rng.randrange(n)
+        return S(a, a + 1)
     if kind == "b":
         return S(None, rng.randint(1, max(1, n - 1)))
     if kind == "a":
@@ -199,7 +202,7 @@ def gen_item(rng, kind, n, tshape, neg=False):
         return I(-1)
     if kind == "int_neg":
         return I(rng.choice([-n, rng.randint(-n, -2)]) if n >= 2 else -1)
-    if kind in SLICE_KINDS:
+    if kind in SLICE_KINDS or kind == "unit":
         return gen_slice(rng, kind, n)
     if kind == "ell":
         return ELL
@@ -228,7 +231,24 @@ def valid_kinds(kinds, ndim, strict=True):
     return True
 
 
-def instantiate(rng, kinds, shape, form=0, negative_tensor_entries=False):
+def derive_col(rng, row_item, mode, n):
+    """the column item of the 'row == col' families: an exact copy of the row item ("eq"), or a near copy that differs in
+    one field ("near": stop / step / start changed so that the index objects are unequal but look alike)"""
+    it = dict(row_item)
+    if mode == "eq" or it["k"] != "slice":
+        return it
+    which = rng.randrange(3)
+    if which == 0:
+        it["s"] = (it["s"] or 1) + 1
+    elif which == 1 and (it["b"] is not None) and it["b"] not in (0, -1):
+        it["b"] = it["b"] - 1 if it["b"] > 1 or it["b"] < -1 else None
+    else:
+        a = it["a"] if it["a"] is not None else 0
+        it["a"] = a + 1 if a + 1 < n and a + 1 != 0 else a
+    return it
+
+
+def instantiate(rng, kinds, shape, form=0, negative_tensor_entries=False, eq_mode=None):
     """kinds: one kind per dimension of `shape`.  form: 0 as is; 1 drop trailing full slices;
     2 insert an ellipsis that consumes no dimension; 3 replace a run of >= 2 full slices by an ellipsis;
     4 bare (single item without tuple).  Returns (items, bare)."""
@@ -239,7 +259,14 @@ def instantiate(rng, kinds, shape, form=0, negative_tensor_entries=False):
         tshape = {"B": B, "L": B[1]}
     else:
         tshape = {"L": rng.choice([1, 2, 2, 3, 4]), "B": None}
+    if eq_mode:
+        # row == col families: the row item is generated for the smaller of the two matrix dimensions, so that its copy
+        # selects at least one element of the column dimension as well
+        shape = list(shape)
+        shape[-2] = min(shape[-2], shape[-1])
     items = [gen_item(rng, k, shape[d], tshape, negative_tensor_entries) for d, k in enumerate(kinds)]
+    if eq_mode:
+        items[-1] = derive_col(rng, items[-2], eq_mode, shape[-1])
     bare = False
     is_full = lambda it: it["k"] == "slice" and it["a"] is None and it["b"] is None and it["s"] is None
     if form == 1 and "ell" not in kinds:
